@@ -24,6 +24,15 @@ type VM struct {
 	Persisted  bool   // a fresh engine per request: the entry move is injected whenever no code is pending
 	OutputSize uint32 // 0 = unlimited
 	CacheSize  uint32
+	// ResetOnEmpty: engine.Config.ResetOnEmptyInput ("purges cache and restart state execution at root on
+	// empty input"): an empty input to a session that has a position drops the navigation stack, every
+	// cache scope, the pending code and a TERMINATE block, and the entry node is executed afresh.
+	ResetOnEmpty bool
+	// First: the engine has a first function (engine.WithFirst) that answers with empty content and no flags:
+	// it is called once per engine (persisted: every request) before anything else, but not for a refused
+	// input and not for a blocked session; it has no effect on the session.
+	First     bool
+	firstDone bool
 
 	Nav     Nav
 	Scopes  []map[string]Entry // Scopes[0] is the global scope, Scopes[i] belongs to Nav.Stack[i-1]
@@ -233,6 +242,17 @@ func (v *VM) Request(input []byte) (r Resp) {
 	if v.Ended && !v.Persisted {
 		return Resp{Undefined: true, Why: "long-lived engine used after the session ended"}
 	}
+	if v.First && v.ResetOnEmpty {
+		return Resp{Undefined: true, Why: "first function combined with ResetOnEmptyInput"}
+	}
+	if v.ResetOnEmpty && len(input) == 0 && len(v.Nav.Stack) > 0 {
+		v.Nav = Nav{}
+		v.Scopes = []map[string]Entry{{}}
+		delete(v.Flags, FlagTerminate)
+		v.Pending = []codec.Ins{{Op: codec.MOVE, Sym: v.App.Root}}
+		v.reading, v.matched, v.waiting = false, false, true
+		v.afterCroak = nil
+	}
 	if v.Flags[FlagTerminate] {
 		// nothing runs, no output, stop
 		r.Blocked = true
@@ -257,6 +277,11 @@ func (v *VM) Request(input []byte) (r Resp) {
 		r.Err = true
 		r.Cont = true
 		return r
+	}
+	if v.First && (v.Persisted || !v.firstDone) {
+		v.firstDone = true
+		r.Calls = append(r.Calls, "_first")
+		r.Steps += 2
 	}
 	v.matched = false
 	lastHalt := false
